@@ -125,6 +125,11 @@ func checkC17(c *Ctx) {
 				[]ValAssume{{Name: sprintf("opts.SaltLength = %d", t.v), Match: saltLoad, Val: latInt(t.v)}}, "(*math/big.Int).BitLen", t.maximal)
 		}
 	}
+	// the combiner refuses a share list only when it is too short, mixes dealings, has no integer Lagrange
+	// coefficient or fails the final self-check: any qualified set of players, the last one included, combines
+	c.rejectReasonsRule(p, "C17.threshold", reasonSpec{pkg: tr, name: "CombineSignShares", why: "too few shares, shares of different dealings, Lagrange coefficient, final self-check",
+		callees: []string{"(*math/big.Int).Cmp", tr + ".computeLambda"},
+		conds:   []string{`len\(param#1\) < param#1\[0\]\.Threshold`, `param#1\[.*\]\.Players != param#1\[0\]\.Players`, `param#1\[.*\]\.Threshold != param#1\[0\]\.Threshold`}})
 	checkDigestInfoPrefixes(c, p, "C17.exact")
 	cs := p.Func(tr, "", "CombineSignShares")
 	c.evalAcceptRule(p, "C17.threshold", "empty share list is refused", cs, map[string]lat{"shares": latSliceLen(0)}, nil, false)
